@@ -1,1 +1,94 @@
-// placeholder
+//! Independent FLARM packet builder: key schedule + XXTEA *encryption* (6 rounds), written from the
+//! published description of the protocol (the decoder under test only contains the decryption).
+const DELTA: u32 = 0x9E37_79B9;
+const KEY_A: [u32; 4] = [0xe432_76df, 0xdca8_3759, 0x9802_b8ac, 0x4675_a56b];
+const KEY_B: [u32; 4] = [0xfc78_ea65, 0x804b_90ea, 0xb765_42cd, 0x329d_fa32];
+
+fn scramble(k: u32, seed: u32) -> u32 {
+    let m1 = seed.wrapping_mul(k ^ (k >> 16));
+    let m2 = seed.wrapping_mul(m1 ^ (m1 >> 16));
+    m2 ^ (m2 >> 16)
+}
+
+pub fn key_table_b(time: u32) -> bool {
+    (time >> 23) & 1 == 1
+}
+
+pub fn make_key(time: u32, address: u32) -> [u32; 4] {
+    let table = if key_table_b(time) { KEY_B } else { KEY_A };
+    let a = (address << 8) & 0x00ff_ffff;
+    let mut k = [0u32; 4];
+    for i in 0..4 {
+        k[i] = scramble(table[i] ^ ((time >> 6) ^ a), 0x045D_9F3B) ^ 0x87B5_62F4;
+    }
+    k
+}
+
+fn mx(sum: u32, y: u32, z: u32, p: usize, e: u32, k: &[u32; 4]) -> u32 {
+    (((z >> 5) ^ (y << 2)).wrapping_add((y >> 3) ^ (z << 4))) ^ ((sum ^ y).wrapping_add(k[(p & 3) ^ e as usize] ^ z))
+}
+
+/// XXTEA encryption with a fixed number of rounds
+pub fn encrypt(v: &mut [u32; 5], k: &[u32; 4], rounds: u32) {
+    let n = v.len();
+    let mut sum: u32 = 0;
+    let mut z = v[n - 1];
+    for _ in 0..rounds {
+        sum = sum.wrapping_add(DELTA);
+        let e = (sum >> 2) & 3;
+        for p in 0..n - 1 {
+            let y = v[p + 1];
+            v[p] = v[p].wrapping_add(mx(sum, y, z, p, e, k));
+            z = v[p];
+        }
+        let y = v[0];
+        v[n - 1] = v[n - 1].wrapping_add(mx(sum, y, z, n - 1, e, k));
+        z = v[n - 1];
+    }
+}
+
+#[derive(Clone, Debug)]
+pub struct Fields {
+    pub address: u32,
+    pub is_icao: bool,
+    pub vs: u32,      // 10 bits
+    pub stealth: bool,
+    pub no_track: bool,
+    pub gps: u32,     // 12 bits
+    pub actype: u32,  // 4 bits
+    pub lat: f64,
+    pub lon: f64,
+    pub alt: u32,     // 13 bits, metres
+    pub mult: u32,    // 2 bits
+    pub ns: [i8; 4],
+    pub ew: [i8; 4],
+    pub w0_spare: u32, // bits 10..12 and 15
+    pub w2_spare: u32, // bits 20..29
+}
+
+pub fn lat_field(lat: f64) -> u32 {
+    ((((lat * 1e7).round() as i64) >> 7) & 0x7FFFF) as u32
+}
+pub fn lon_field(lon: f64) -> u32 {
+    ((((lon * 1e7).round() as i64) >> 7) & 0xFFFFF) as u32
+}
+
+pub fn words(f: &Fields) -> [u32; 5] {
+    let w0 = (f.vs & 0x3ff) | ((f.w0_spare & 7) << 10) | ((f.stealth as u32) << 13) | ((f.no_track as u32) << 14) | (((f.w0_spare >> 3) & 1) << 15) | ((f.gps & 0xfff) << 16) | ((f.actype & 0xf) << 28);
+    let w1 = lat_field(f.lat) | ((f.alt & 0x1fff) << 19);
+    let w2 = lon_field(f.lon) | ((f.w2_spare & 0x3ff) << 20) | ((f.mult & 3) << 30);
+    let pack = |a: &[i8; 4]| (a[0] as u8 as u32) | ((a[1] as u8 as u32) << 8) | ((a[2] as u8 as u32) << 16) | ((a[3] as u8 as u32) << 24);
+    [w0, w1, w2, pack(&f.ns), pack(&f.ew)]
+}
+
+/// 26-byte radio packet: address (LE, 3 bytes), magic, 5 encrypted LE words, 2 trailing bytes
+pub fn packet(f: &Fields, time: u32, tail: [u8; 2]) -> Vec<u8> {
+    let mut w = words(f);
+    encrypt(&mut w, &make_key(time, f.address), 6);
+    let mut p = vec![(f.address & 0xff) as u8, ((f.address >> 8) & 0xff) as u8, ((f.address >> 16) & 0xff) as u8, if f.is_icao { 0x10 } else { 0x20 }];
+    for x in w {
+        p.extend_from_slice(&x.to_le_bytes());
+    }
+    p.extend_from_slice(&tail);
+    p
+}
